@@ -450,9 +450,16 @@ def r12(ctx, facts):
     c15_r1(ctx, facts)
 
 
+def r13(ctx, facts):
+    """shared with C04 (stated there as R5): the replica set of an NTS keyspace walks every datacenter - an empty one in the
+    middle does not end it - so a live replica in a later datacenter is found when the first-drawn replica is down"""
+    from .c04 import r5 as c04_r5
+    c04_r5(ctx, facts)
+
+
 def check(ctx):
     facts = inline_view(ctx.facts("default"))
-    for fn in (r1, r2, r3, r4, r5, r6, r7, r8, r9, r10, r11, r12):
+    for fn in (r1, r2, r3, r4, r5, r6, r7, r8, r9, r10, r11, r12, r13):
         try:
             fn(ctx, facts)
         except AnchorLost as ex:
